@@ -16,7 +16,7 @@ enum Sym {
     P(u8),
 }
 
-const SYMS: [Sym; 13] = [
+const SYMS: [Sym; 15] = [
     Sym::LP,
     Sym::RP,
     Sym::Not,
@@ -30,11 +30,13 @@ const SYMS: [Sym; 13] = [
     Sym::P(4),
     Sym::P(5),
     Sym::P(6),
+    Sym::P(7),
+    Sym::P(8),
 ];
 
 /// primaries: (keyword, argument value); the last two are option words, which stand where a
 /// primary may stand (leading, options-only and in-expression placements all occur)
-const PRIMS: [(&str, Option<&str>); 7] = [
+const PRIMS: [(&str, Option<&str>); 9] = [
     ("-true", None),
     ("-name", Some("x")),
     ("-perm", Some("u+x")),
@@ -42,6 +44,9 @@ const PRIMS: [(&str, Option<&str>); 7] = [
     ("-uid", Some("+1")),
     ("-depth", None),
     ("-threads", Some("3")),
+    // values that permit a single quoting style only: they must still come through unchanged
+    ("-name", Some("a\"b c")),
+    ("-iname", Some("it's")),
 ];
 
 fn tok(s: Sym) -> Tok {
@@ -80,6 +85,8 @@ fn arg_spelling(k: u8, q: u8) -> String {
     match (k, q) {
         // -uid and -threads take a number: quoting is unspecified, never varied
         (4, _) | (6, _) => a.to_string(),
+        (7, _) => format!("'{a}'"),
+        (8, _) => format!("\"{a}\""),
         // the format's canonical spelling is single-quoted; alternatives: double-quoted, bare
         (3, 0) => format!("'{a}'"),
         (3, 1) => format!("\"{a}\""),
@@ -335,6 +342,18 @@ fn check_base(base: &Vec<Sym>, acc: &mut Acc) {
             return;
         }
     }
+    // the canonical spelling itself must mean what the text-level reference says
+    match crate::textcmp::compare(&canon_in) {
+        crate::textcmp::Verdict::AgreeAccept(_) | crate::textcmp::Verdict::Skip(_) => {}
+        other => {
+            acc.violate(Violation::new(
+                "C06:canonical-spelling-misread",
+                format!("the canonical spelling {canon_in:?} is not read as the reference reads it: {other:?}"),
+                json!({"kind": "pair", "canonical": canon_in, "variant": canon_in, "deviations": ["none"]}),
+            ));
+            return;
+        }
+    }
     let devs = deviations(base);
     acc.transitions += devs.len() as u64;
     // 0 deviations
@@ -405,7 +424,7 @@ pub fn run(ctx: &Ctx) -> i32 {
             level: "model_checking",
             exhaustive: true,
             rule: "state = (base sentence, set of spelling deviations); deviation-bounded exploration: 0, 1 and 2 simultaneous departures from the canonical spelling at every site with every value, plus all sites of one kind at once; distinct = distinct (options, tree) results".into(),
-            bound: format!("every grammar sentence of <= {n} symbols over 13 symbols (5 primaries and the option words -depth, -threads 3, so options-only and option-led inputs occur); deviation bound 2; all 341 blank-only inputs of length 0..4"),
+            bound: format!("every grammar sentence of <= {n} symbols over 15 symbols (5 primaries, the option words -depth and -threads 3, so options-only and option-led inputs occur, and two name tests whose value contains the other quote character); deviation bound 2; all 341 blank-only inputs of length 0..4"),
             assumptions: vec![
                 "insignificant spelling = blanks (space, tab, CR, LF) between words and at the ends, -a/-and/juxtaposition, -o/-or, redundant parentheses (spaced or touching their operand), quoting style of string-class arguments".into(),
                 "quoting of numeric arguments is unspecified and never varied".into(),
@@ -419,6 +438,10 @@ pub fn replay(w: &Value) -> Vec<Violation> {
     let mut acc = Acc::new();
     let kinds: Vec<String> = w["deviations"].as_array().map(|a| a.iter().filter_map(|x| x.as_str().map(String::from)).collect()).unwrap_or_default();
     let ks: Vec<&str> = kinds.iter().map(|s| s.as_str()).collect();
-    judge(w["canonical"].as_str().unwrap_or(""), w["variant"].as_str().unwrap_or(""), &ks, &mut acc);
+    let (c, v) = (w["canonical"].as_str().unwrap_or(""), w["variant"].as_str().unwrap_or(""));
+    if c == v && !matches!(crate::textcmp::compare(c), crate::textcmp::Verdict::AgreeAccept(_) | crate::textcmp::Verdict::Skip(_)) {
+        acc.violate(Violation::new("C06:canonical-spelling-misread", format!("{c:?} is not read as the reference reads it"), w.clone()));
+    }
+    judge(c, v, &ks, &mut acc);
     acc.violations.into_values().map(|(v, _)| v).collect()
 }
